@@ -257,9 +257,9 @@ class NPoint(TemperatureProfile):
 
         P_surface = self._P_surface
         P_top = self._P_top
-        if not P_surface:
+        if P_surface is None:
             P_surface = -1
-        if not P_top:
+        if P_top is None:
             P_top = -1
 
         temperature.write_scalar('P_surface', P_surface)
